@@ -187,6 +187,7 @@ def specs(tier):
         J('v-new3-snap:S1H2R1', 'version_snap', dict(n=3, obj='vnew'), dict(S=1, H=2, R=1)),
         J('v-new3-nosnap:S1H2R1', 'version_snap', dict(n=3, obj='vnew'), dict(S=1, H=2, R=1), dict(do_compact=False)),
         J('v-new3-journal-snap:S1H1P1', 'version_snap', dict(n=3, obj='vnew', journal='file+dump'), dict(S=1, H=1, P=1)),
+        J('v-new2-hook:V1H2', 'steady', dict(n=2, obj='vnew', version_hook=True), dict(V=1, H=2), dict(k=0)),
         J('v-mixed2:V1S2H2', 'steady', dict(n=2, obj='vmixed'), dict(V=1, S=2, H=2), dict(k=0)),
     ]
     if not q:
